@@ -401,6 +401,11 @@ fn nested_too_deep(line: &str) -> bool {
     for c in line.chars() {
         if in_string {
             in_string = c != quote;
+            if !in_string {
+                // the constant that ends here is an operand like a name or a number
+                run = 0;
+                significant = 'a';
+            }
         } else {
             match c {
                 '"' | '\'' => {
